@@ -42,6 +42,9 @@ struct Plan {
     /// EPMD's replies arrive a byte at a time
     #[serde(default)]
     epmd_choppy: bool,
+    /// start() is called a second time on the started node: refused, and nothing about the node changes
+    #[serde(default)]
+    start_twice: bool,
     /// operations issued before Node::start (only those that do not need a started node)
     #[serde(default)]
     before_start: Vec<Op>,
@@ -101,6 +104,7 @@ impl Scenario for C16N {
             epmd_legacy: r.chance(1, 3),
             hidden: r.chance(1, 3),
             epmd_choppy: r.chance(1, 3),
+            start_twice: r.chance(1, 4),
             before_start: gen_ops(r, n_before, false),
             tasks: (0..n_tasks).map(|_| { let n = r.range(1, 8) as usize; gen_ops(r, n, true) }).collect(),
             near_wrap: if r.chance(1, 4) { r.range(1, 6) as u32 } else { 0 },
@@ -290,6 +294,15 @@ async fn scenario(w: &Arc<World>, p: &Plan) {
     }
     if expected_creation == 1 {
         w.stat("probe.c16n.same_creation_from_epmd");
+    }
+    if p.start_twice {
+        if node.start(0).await.is_ok() {
+            w.violation("second-start-accepted", "start() on a started node returned Ok".to_string());
+        }
+        w.stat("probe.c16n.second_start_refused");
+        if node.creation() != expected_creation {
+            w.violation("creation", format!("after a refused second start the node's creation is {} (it was {})", node.creation(), expected_creation));
+        }
     }
     if p.before_start.is_empty() && node.connect(PEER_NAME).await.is_err() {
         return;
